@@ -481,8 +481,9 @@ def main(tier: str, seed: int) -> int:
         traces += shipped_run(uc7_3, "uc7_config_tap003", "random" if i else "mixed", [1] if quick else [1, 2], seed + 31 * i)
     variants_dir = str(scenarios.PKG / "uc7_multiple_attack_variants")
     for i in range(1 if quick else 2):
-        # schedule: 0 TAP001_PC1, 1 TAP001_PC2, 2 TAP001_PC3, 5 TAP003
-        traces += shipped_run(variants_dir, "uc7_multiple_attack_variants", "mixed" if i == 0 else "random", [0, 1, 2, 5], seed + 41 * i)
+        # schedule: 0 TAP001_PC1, 1 TAP001_PC2, 2 TAP001_PC3, 5 TAP003   (quick: one TAP001 variant and the TAP003 one)
+        traces += shipped_run(variants_dir, "uc7_multiple_attack_variants", "mixed" if i == 0 else "random",
+                              [rng.choice([0, 1, 2]), 5] if quick else [0, 1, 2, 5], seed + 41 * i, n_steps=45 if quick else None)
     # 3b. the two UC7 files with other TAP settings (repeat flags, probabilities, schedule)
     tap_vars: List[Tuple[str, Dict[str, Any], str]] = [
         ("tap-001", dict(start_step=2, frequency=1, variance=0, repeat_kill_chain=True, repeat_kill_chain_stages=True), "passive"),
@@ -503,16 +504,16 @@ def main(tier: str, seed: int) -> int:
                 tap_vars.append((typ, dict(start_step=2, frequency=2, variance=1, repeat_kill_chain=flags[0], repeat_kill_chain_stages=flags[1], prob=0.7), "random"))
                 tap_vars.append((typ, dict(start_step=5, frequency=3, variance=2, repeat_kill_chain=flags[0], repeat_kill_chain_stages=flags[1], prob=0.9), "mixed"))
     # settings drawn by TLC for threat-actor agents
-    for ts in tap_settings[: (2 if quick else 12)]:
+    for ts in tap_settings[: (1 if quick else 12)]:
         ts = dict(ts)
         typ = "tap-001" if ts.pop("nStages") == 6 else "tap-003"
         tap_vars.append((typ, ts, "mixed"))
     for j, (typ, kw, blue) in enumerate(tap_vars):
         base = uc7 if typ == "tap-001" else uc7_3
         lab = "uc7_config+settings" if typ == "tap-001" else "uc7_config_tap003+settings"
-        traces += shipped_run(tap_variant(base, **kw), lab, blue, [1], seed + 51 + j, extra={"tap_settings": kw})
+        traces += shipped_run(tap_variant(base, **kw), lab, blue, [1], seed + 51 + j, n_steps=45 if quick else None, extra={"tap_settings": kw})
     # 4. TLC judges every trace
-    res = tlc.validate("AgentsTrace", traces)
+    res = tlc.validate("AgentsTrace", traces, chunk=150)
     rejected = judge(chk, traces, res)
     kinds: Dict[str, int] = {}
     for tr in traces:
